@@ -30,7 +30,7 @@ RULE = (
 )
 BOUNDS = {
     "quick": "(a),(b): m,k,n<=2 all positions, 16 unit pairs (64 signed for 1x1); (c),(d),(e): m,k,n<=3, six pattern classes, 1 fill row; monomial unitaries n<=2 all, n=3 transversal",
-    "thorough": "(a): m,k,n<=3; (b): <=2; (c),(d),(e): m,k,n<=4, 3 fill rows; monomial unitaries n<=3 all",
+    "thorough": "(a): m,k,n<=4; (b): <=2; (c),(d),(e): m,k,n<=4, 3 fill rows; monomial unitaries n<=3 all",
 }
 WALL_BUDGET = {"quick": 300, "thorough": 2400}
 ASSUMPTIONS = [
@@ -80,7 +80,7 @@ CLASSES = ["generic", "ints", "pureimag", "axis", "zero", "huge", "tiny"]
 # ------------------------------------------------------------------ cases
 def cases(tier, seed):
     out = []
-    Sa = 2 if tier == "quick" else 3
+    Sa = 2 if tier == "quick" else 4
     for m, k, n in itertools.product(range(1, Sa + 1), repeat=3):
         out.append({"key": f"a/basis/{m}x{k}x{n}", "grp": "a", "m": m, "k": k, "n": n})
     for m, k, n in itertools.product(range(1, 3), repeat=3):
